@@ -32,7 +32,7 @@ def sh(cmd, timeout=3600, env=None, cwd=None, check=False, stdin=None):
     t0 = time.time()
     try:
         p = subprocess.run(cmd, shell=isinstance(cmd, str), cwd=cwd, env=e, timeout=timeout,
-                           stdout=subprocess.PIPE, stderr=subprocess.PIPE, text=True, input=stdin)
+                           stdout=subprocess.PIPE, stderr=subprocess.PIPE, text=True, errors="replace", input=stdin)
     except subprocess.TimeoutExpired:
         raise ToolError(f"timeout after {timeout}s: {cmd}")
     if check and p.returncode != 0:
@@ -201,10 +201,15 @@ def replay(cases, tag):
                 obs[r["i"]] = r["obs"]
         if p.returncode == 0:
             break
-        if last_started is None or obs[last_started] is not None:
-            raise ToolError(f"harness replay failed ({p.returncode}):\n{p.stderr[-3000:]}")
         tail = [l for l in p.stderr.splitlines() if "warning" not in l and "zero-copy, but" not in l][-6:]
-        obs[last_started] = {"abort": p.returncode, "stderr": "\n".join(tail)[-600:]}
+        if last_started is None:
+            raise ToolError(f"harness replay failed ({p.returncode}):\n{p.stderr[-3000:]}")
+        if obs[last_started] is not None:
+            # the process died after the case had reported (heap corruption detected late, e.g. at exit or by
+            # a later free): attribute it to that case and go on with the next one
+            obs[last_started] = {"abort": p.returncode, "late": True, "stderr": "\n".join(tail)[-600:]}
+        else:
+            obs[last_started] = {"abort": p.returncode, "stderr": "\n".join(tail)[-600:]}
         start = last_started + 1
     return obs
 
